@@ -2,7 +2,7 @@ from propcfg.common import *
 from propcfg.tmplcommon import *
 
 CFG = dict(TMPL_C06)
-CFG["proof_modules"] = ["SafeHtml.Proofs.Frozen", "SafeHtml.Proofs.Independence", "SafeHtml.Proofs.IndependenceCalls", "SafeHtml.Proofs.Layer3Repeat3"]
+CFG["proof_modules"] = ["SafeHtml.Proofs.Frozen", "SafeHtml.Proofs.Independence", "SafeHtml.Proofs.IndependenceCalls", "SafeHtml.Proofs.Layer3Repeat3", "SafeHtml.Proofs.Layer3Repeat4"]
 CFG["level_text"] = CFG["level_text"] + " Proofs/Independence.lean proves the first half for templates without {{template}} calls: C06_callfree_reachable — in any two reachable worlds in which the same call-free tree is installed under a name not yet analysed, the analysis has the same outcome class and, on success, execution gives the same result for every data (the analysis of a call-free template never reads the memo; the committed tree is a function of the tree alone)."
 CFG["level_note"] = "Not proved: first-analysis independence for templates WITH template calls (needs a memo-correctness invariant; false without excluding the two findings memo-ignores-attr-prefix and mangled-name-collision). C06_statement is kept in Props/C06.lean."
 
@@ -18,3 +18,7 @@ CFG["level_text"] = CFG["level_text"] + (" Proofs/Layer3Repeat3.lean states hist
     "C06_result_history_independent_{single,branch,main_plus_helper,main_plus_derived_helper} — for ARBITRARY lists pre1, pre2 of earlier Execute calls "
     "(any data, successful or failed) and every d, Execute(d) after pre1 returns exactly what Execute(d) after pre2 returns (bytes or error); the world "
     "after the first Execute is a data-independent fixed point of apiExecute.")
+
+CFG["level_text"] = CFG["level_text"] + (" Proofs/Layer3Repeat4.lean removes every hypothesis for single-template sets: C06_result_history_independent_any_single — for an ARBITRARY "
+    "tree (accepted, refused, panicking analysis, exhausted model fuel) Execute(d) after any list of earlier Execute calls returns what the first Execute(d) returns; "
+    "likewise for the CSP-compatible set (…_any_single_csp).")
